@@ -746,6 +746,19 @@ struct cursor_t {
 	BOOST_MULTI_HD constexpr auto stride() const { using std::get; return get<DD>(strides_); }
 };
 
+namespace detail {
+// elements ranges address elements by zero-based positions relative to the base pointer,
+// which already points at the first valid index: drop the index bases (offsets) of a layout
+template<class Layout>
+constexpr auto zero_based_layout(Layout const& lyt) -> Layout {
+	if constexpr(Layout::rank_v == 0) {
+		return lyt;
+	} else {
+		return Layout{zero_based_layout(lyt.sub()), lyt.stride(), 0, lyt.nelems()};
+	}
+}
+}  // end namespace detail
+
 template<typename Pointer, class LayoutType>
 // NOLINTNEXTLINE(cppcoreguidelines-special-member-functions,hicpp-special-member-functions)
 struct elements_iterator_t : boost::multi::random_accessable<elements_iterator_t<Pointer, LayoutType>, typename std::iterator_traits<Pointer>::difference_type, typename std::iterator_traits<Pointer>::reference> {
@@ -896,7 +909,7 @@ struct elements_range_t {
 	template<class OtherRange, decltype(multi::detail::explicit_cast<pointer>(std::declval<OtherRange>().base_))* = nullptr>
 	constexpr explicit elements_range_t(OtherRange const& other) : elements_range_t{other} {}
 
-	constexpr elements_range_t(pointer base, layout_type const& lyt) : base_{base}, l_{lyt} {}
+	constexpr elements_range_t(pointer base, layout_type const& lyt) : base_{base}, l_{detail::zero_based_layout(lyt)} {}
 
 	constexpr auto base()       ->       pointer {return base_;}
 	constexpr auto base() const -> const_pointer {return base_;}
